@@ -123,6 +123,7 @@ def _k3_job(job):
                 for lt in t[4:].split('|'):
                     _, f, data = lt.split(':', 2)
                     if cur.get('file://' + f) != data: part.add('C11/K2/stale-diagnostics/%s' % _hrole(hist), 'published diagnostic %s was computed from text that is no longer current (%s)' % (t, cur), wit, ('lsp_history', (hdesc,)))
+        if not part.findings and len(part.validate) < 1 and len(hist) == 2: part.validate.append(('lsp_history', (hdesc,)))
         if len(part.samples) < 1: part.samples.append({'history': hdesc, 'published': tags, 'held': held})
     M.explore(entry, on_path)
     part.queries += M.stats['smt']; part.encoded = set(M.encoded); part.models = set(M.models_used)
